@@ -10,8 +10,8 @@ N3  starting set: without starters every distinct unified input ranking (duplica
     with starters exactly one row per starter, each computed on the caller's dataset and scheme asking for one ranking;
     the entry point asks for the default starting set.
 N4  selection: the reported score is the minimum final score and exactly the rows reaching it are returned.
-N5  monotonicity: the local search only applies moves whose accumulated delta is < a negative threshold, and
-    returns their sum.
+N5  monotonicity: the local search only applies moves whose test value is < a negative threshold, the test value is
+    the definitional delta of the move applied (C08/L5, L7), and the sum of the accepted values is returned.
 """
 from __future__ import annotations
 
@@ -69,6 +69,62 @@ STARTERS = [
 ]
 
 
+STARTER_DATA = [[{2, 3, 7}, {1, 5}, {4, 6}], [{4}, {1, 2, 3, 5, 6, 7}], [{1, 5}, {2, 3, 4}, {6, 7}]]
+
+
+def _check_constructor(res: Result, proj: Project):
+    """Real BioConsert objects built by the real constructor from lists of real starting algorithms - among them
+    different algorithms of one class (the two Borda variants, which disagree on STARTER_DATA; BioConsert objects with
+    different starters of their own): the real `_departure_rankings` must hold one row per given starter, the encoding
+    of that starter's own consensus under the dataset's id map."""
+    from .endtoend import E2EWorld, UNIFYING
+    from ..engines.abseval import AbsRaise, Unsupported, Vec
+    from ..loader import AnalysisError
+    cls = proj.cls(bioc.MOD, "BioConsert")
+    dep = proj.method(cls, "_departure_rankings")
+    w = E2EWorld(proj)
+    a = w.alg
+    ds = w.dataset(STARTER_DATA)
+    sch = w.scheme(UNIFYING)
+    ids = {w.key(e)[1]: i for e, i in ds.abs_getattr("mapping_elem_id", None, None).items()}
+
+    def starters(kind):
+        if kind == "two Borda variants":
+            return [a("borda.borda", "BordaCount", use_bucket_id=True), a("borda.borda", "BordaCount")]
+        if kind == "Borda, Copeland, Borda variant":
+            return [a("borda.borda", "BordaCount"), a("copeland.copeland", "CopelandMethod"),
+                    a("borda.borda", "BordaCount", use_bucket_id=True)]
+        return [a("bioconsert.bioconsert", "BioConsert", starting_algorithms=[a("borda.borda", "BordaCount", use_bucket_id=True)]),
+                a("bioconsert.bioconsert", "BioConsert", starting_algorithms=[a("borda.borda", "BordaCount")])]
+    for kind in ("two Borda variants", "Borda, Copeland, Borda variant", "two BioConsert with different starters"):
+        try:
+            algs = starters(kind)
+            want = []
+            for alg in algs:
+                c = w.compute(alg, ds, sch, True)
+                row = [None] * len(ids)
+                for k, b in enumerate(c.attrs["_consensus_rankings"][0].attrs["_buckets"]):
+                    for e in b:
+                        row[ids[w.key(e)[1]]] = k
+                want.append(row)
+            bio = a("bioconsert.bioconsert", "BioConsert", starting_algorithms=list(algs))
+            ret = w.rt.call_method(bio, dep.name, ds, sch)
+        except AbsRaise as r:
+            res.bad("N3", f"BioConsert(starting_algorithms):{kind}", dep.loc(), f"raised {r.exc_name}")
+            continue
+        except Unsupported as exc:
+            raise AnalysisError(f"{dep.qualname} with real starting algorithms: unsupported construct line "
+                                f"{getattr(exc.node, 'lineno', '?')}: {exc}")
+        rows = [[int(x) for x in (r.vals if isinstance(r, Vec) else r)] for r in
+                (ret.abs_iter() if hasattr(ret, "abs_iter") else ret)]
+        distinct = len({tuple(r) for r in want})
+        # (identical rows may be kept once: the guarantee is about the consensus of each starter, not about multiplicity)
+        res.check({tuple(r) for r in rows} == {tuple(r) for r in want}, "N3", f"BioConsert(starting_algorithms):{kind}", dep.loc(),
+                  ok_detail=f"{len(want)} starters ({distinct} distinct consensuses) -> one departure row each",
+                  bad_detail=f"dataset {STARTER_DATA}, unifying scheme: the starters' own consensuses encode as {want}, "
+                             f"the departure rows are {rows}")
+
+
 def run(ctx) -> Result:
     res = Result("C09")
     proj = ctx.proj
@@ -79,7 +135,7 @@ def run(ctx) -> Result:
     res.rule("N1", "departure rows use the caller's element ids (scenarios whose derived datasets would number "
                    "elements differently)", 4)
     res.rule("N2", "initial score of a departure row is its definitional score", 3)
-    res.rule("N3", "starting set: distinct unified rankings + all-tied, or one row per starter on the caller's inputs", 4)
+    res.rule("N3", "starting set: distinct unified rankings + all-tied, or one row per starter on the caller's inputs", 7)
     res.rule("N4", "reported score = minimum final score; exactly the rows reaching it are returned", 3)
     res.rule("N5", "only strictly improving moves are applied and their deltas are summed", 3)
 
@@ -145,6 +201,7 @@ def run(ctx) -> Result:
               "_departure_rankings:defaults", dep.loc(), ok_detail="unify=True, all_tied_as_well=True by default",
               bad_detail=f"defaults are {defaults}")
 
+    _check_constructor(res, proj)
     from . import C04, C08
     sub = Result("C09")
     sub.rule("S2", "", 0)
@@ -155,7 +212,7 @@ def run(ctx) -> Result:
     res.functions |= sub.functions
     C04.check_bioconsert_selection(res, proj, "N4")
     sub = Result("C09")
-    C08.fill_result(sub, proj, False, only=["L3", "S3"])
+    C08.fill_result(sub, proj, False, only=["L3", "S3", "L5", "L7"])
     for o in sub.obligations:
         o.rule = "N5"
         res.obligations.append(o)
